@@ -977,3 +977,204 @@ Proof.
   split; [|split; reflexivity].
   rewrite U4. rewrite Hnreq. reflexivity.
 Qed.
+
+(* ================================================================== round 2: all responses, binding, option malleability *)
+
+Lemma not_request_of_response c : is_response c = true -> is_request c = false.
+Proof. unfold is_response, is_request. destruct (1 <=? c) eqn:E1, (c <? 32) eqn:E2, (64 <=? c) eqn:E3; cbn; intros; try reflexivity; try discriminate; lia. Qed.
+
+(* the Partial IV protect puts into the option when it draws sequence number [s] *)
+Definition piv_of_seq (s : Z) : list Z := shorten_piv (to_bytes_big_n (Z.to_nat PIV_FULL_BYTES) s).
+
+(* what protect does for a response *)
+Lemma protect_response_inv E c m rS kc c' r' pm ridS : is_response (code m) = true ->
+  protect E c m (Some rS) kc = (c', r', Ok (pm, ridS)) ->
+  exists pivs gen nonce upiv pt od,
+    ridS = {| rid_kid := rid_kid rS; rid_piv := rid_piv rS; can_reuse_nonce := false; code_style := code_style rS |} /\
+    r' = Some ridS /\
+    ((can_reuse_nonce rS = true /\ upiv = None /\ pivs = rid_piv rS /\ gen = rid_kid rS /\ c' = c) \/
+     (can_reuse_nonce rS = false /\ upiv = Some (piv_of_seq (sender_sequence_number c)) /\
+      pivs = to_bytes_big_n (Z.to_nat PIV_FULL_BYTES) (sender_sequence_number c) /\ gen = sender_id c /\
+      c' = set_seq c (sender_sequence_number c + 1) /\ sender_sequence_number c < MAX_SEQNO)) /\
+    construct_nonce (common_iv c) pivs gen (alg_iv_bytes (c_alg c)) = Ok nonce /\
+    plaintext_of (code m) (opts m) (payload m) = Ok pt /\
+    compress {| u_piv := upiv; u_kid := if responses_send_kid c then Some (sender_id c) else None; u_kid_context := None; u_group := false |} = Ok od /\
+    code pm = snd (code_style rS) /\ opts pm = [(OPT_OSCORE, od)] /\
+    payload pm = enc E (sender_key c) nonce (build_encrypt0_structure (extract_external_aad (c_alg c) ridS)) pt.
+Proof.
+  intros Hresp P. pose proof (not_request_of_response _ Hresp) as Hnreq.
+  apply protect_inv in P as (om & pt & ns & n & pv & up & _ & S & N & -> & F).
+  apply split_message_inv in S as (oc & C & T & ->).
+  unfold outer_code_of in C. rewrite Hnreq in C. injection C as <-.
+  unfold inner_opts in T. rewrite Hnreq in T.
+  unfold protect_finish in F. rewrite Hnreq in F.
+  unfold outer_opts_of in F. rewrite Hnreq, Hresp in F. cbn [app code opts] in F.
+  unfold protect_nonce, get_reusable_kid_and_piv in N.
+  destruct (can_reuse_nonce rS) eqn:Hreuse.
+  - injection N as <- <- N. apply bind_ok_inv in N as [nn [Hn N]]. injection N as <- <- <-.
+    cbn [bind] in F. apply bind_ok_inv in F as [od [Hc F]]. injection F as <- <-.
+    exists (rid_piv rS), (rid_kid rS), nn, None, pt, od. cbn [code opts payload].
+    split; [reflexivity|]. split; [reflexivity|]. split; [left; auto|].
+    split; [exact Hn|]. split; [exact T|]. split; [exact Hc|]. split; [reflexivity|]. split; reflexivity.
+  - unfold new_sequence_number in N.
+    destruct (sender_sequence_number c >=? MAX_SEQNO) eqn:Hmax; [inv N|].
+    injection N as <- <- N. apply bind_ok_inv in N as [[n0 pv0] [B N]]. injection N as <- <- <-.
+    unfold build_new_nonce in B. apply bind_ok_inv in B as [full [Hfull B]]. apply bind_ok_inv in B as [nn [Hn B]]. injection B as <- <-.
+    unfold to_bytes_big in Hfull. destruct ((sender_sequence_number c <? 0) || (2 ^ (8 * PIV_FULL_BYTES) <=? sender_sequence_number c)); [discriminate|].
+    injection Hfull as <-.
+    cbn [bind] in F. apply bind_ok_inv in F as [od [Hc F]]. injection F as <- <-.
+    exists (to_bytes_big_n (Z.to_nat PIV_FULL_BYTES) (sender_sequence_number c)), (sender_id c), nn, (Some (piv_of_seq (sender_sequence_number c))), pt, od.
+    cbn [code opts payload].
+    split; [destruct rS; cbn in *; subst; reflexivity|]. split; [destruct rS; cbn in *; subst; reflexivity|].
+    split. { right. repeat split; try reflexivity. lia. }
+    split; [exact Hn|]. split; [exact T|]. split; [exact Hc|]. split; [reflexivity|]. split; [reflexivity|].
+    destruct rS; cbn in *; subst; reflexivity.
+Qed.
+
+Lemma set_obs_single od oobs : set_opt OPT_OBSERVE oobs [(OPT_OSCORE, od)] =
+  match oobs with Some v => [(OPT_OBSERVE, v); (OPT_OSCORE, od)] | None => [(OPT_OSCORE, od)] end.
+Proof. destruct oobs; reflexivity. Qed.
+Lemma get_oscore_obs od oobs : get_opt OPT_OSCORE (match oobs with Some v => [(OPT_OBSERVE, v); (OPT_OSCORE, od)] | None => [(OPT_OSCORE, od)] end) = Some od.
+Proof. destruct oobs; reflexivity. Qed.
+Lemma observe_value_obs od oobs : observe_value (match oobs with Some v => [(OPT_OBSERVE, v); (OPT_OSCORE, od)] | None => [(OPT_OSCORE, od)] end) =
+  match oobs with Some v => Some (from_bytes_big v) | None => None end.
+Proof. destruct oobs; reflexivity. Qed.
+
+(* Every response — the first one (reused nonce) or one with an own Partial IV (notification), with or without the kid —
+   unprotected by the requester with the identifiers of the request it answers, whatever outer Observe an intermediary or the
+   server stack put on it: original code, options and payload; Observe per RFC 8613 4.1.3.5.2 (outer Observe present: the
+   response's own sequence number, or -1 when it has none; absent: the inner value). *)
+Theorem response_roundtrip_any E cS cC m rS rC kc cS' r' pm ridS oobs : ideal E ->
+  recipient_key cC = sender_key cS -> recipient_id cC = sender_id cS -> common_iv cC = common_iv cS -> c_alg cC = c_alg cS ->
+  is_response (code m) = true -> rid_kid rC = rid_kid rS -> rid_piv rC = rid_piv rS ->
+  (snd (code_style rS) = CODE_CHANGED \/ snd (code_style rS) = CODE_CONTENT) ->
+  protect E cS m (Some rS) kc = (cS', r', Ok (pm, ridS)) ->
+  alg_tag_bytes (c_alg cC) + 1 <= blen (payload pm) ->
+  exists um,
+    unprotect E cC {| code := code pm; opts := set_opt OPT_OBSERVE oobs (opts pm); payload := payload pm |} (Some rC) = (cC, Ok (um, rC)) /\
+    u_code um = code m /\ u_opts um = del_opt OPT_OBSERVE (opts m) /\ u_payload um = payload m /\
+    u_observe um = match oobs with
+                   | None => observe_value (opts m)
+                   | Some _ => Some (if can_reuse_nonce rS then -1 else from_bytes_big (piv_of_seq (sender_sequence_number cS)))
+                   end /\
+    rid_kid ridS = rid_kid rS /\ rid_piv ridS = rid_piv rS.
+Proof.
+  intros (Hde & _ & _) Mk Mid Mciv Malg Hresp Rk Rp Hstyle P Hlen.
+  pose proof (not_request_of_response _ Hresp) as Hnreq.
+  apply (protect_response_inv _ _ _ _ _ _ _ _ _ Hresp) in P as (pivs & gen & nonce & upiv & pt & od & HridS & _ & Hcase & Hn & Hpt & Hc & Hcode & Hopts & Hpay).
+  set (pm' := {| code := code pm; opts := set_opt OPT_OBSERVE oobs (opts pm); payload := payload pm |}).
+  assert (Hfull : blen (to_bytes_big_n (Z.to_nat PIV_FULL_BYTES) (sender_sequence_number cS)) = NONCE_PIV_BYTES) by (rewrite blen_tbn; reflexivity).
+  assert (Hu : uncompress od = Ok {| u_piv := upiv; u_kid := if responses_send_kid cS then Some (sender_id cS) else None; u_kid_context := None; u_group := false |}).
+  { apply compress_uncompress; [|exact Hc]. split; cbn [u_piv u_kid_context]; [|exact I].
+    destruct Hcase as [(_ & -> & _)|(_ & -> & _)]; [exact I|].
+    pose proof (shorten_piv_len _ Hfull). unfold piv_of_seq, PIVSZ_MAX, NONCE_PIV_BYTES in *. lia. }
+  destruct (plaintext_roundtrip _ _ _ _ pm' (match upiv with Some p => Some (from_bytes_big p) | None => None end) Hpt) as (um & Hfin & U1 & U2 & U3 & U4).
+  exists um.
+  assert (Hr : is_response (code pm) = true) by (rewrite Hcode; destruct Hstyle as [-> | ->]; reflexivity).
+  unfold unprotect, unprotect_verify. cbn [code opts payload pm'] in *. rewrite Hr. cbn [Bool.eqb massert bind].
+  rewrite Hopts, set_obs_single, get_oscore_obs, Hu. cbn [bind u_piv u_kid u_kid_context u_group].
+  replace (opt_beqb (id_context cC) (id_context cC)) with true by (destruct (id_context cC); cbn; [rewrite beqb_refl|]; reflexivity).
+  replace (beqb (match (if responses_send_kid cS then Some (sender_id cS) else None) with Some k => k | None => recipient_id cC end) (recipient_id cC)) with true
+    by (destruct (responses_send_kid cS); rewrite <- ?Mid, beqb_refl; reflexivity).
+  cbn [negb].
+  assert (Haad : extract_external_aad (c_alg cS) rC = extract_external_aad (c_alg cS) ridS)
+    by (rewrite HridS; unfold extract_external_aad; cbn [rid_kid rid_piv]; rewrite Rk, Rp; reflexivity).
+  replace (blen (payload pm) <? alg_tag_bytes (c_alg cC) + 1) with false by lia.
+  rewrite Hopts, set_obs_single, observe_value_obs in U4. rewrite Hnreq in U4. cbv zeta in U4.
+  destruct Hcase as [(Hreuse & -> & -> & -> & ->)|(Hreuse & -> & -> & -> & -> & _)]; cbn [bind].
+  - rewrite Mciv, Malg, Rk, Rp, Hn. cbn [bind]. rewrite Mk, Haad, Hpay, Hde. cbn [bind]. rewrite Hfin. cbn [bind].
+    replace (set_window cC (recipient_replay_window cC)) with cC by (destruct cC; reflexivity).
+    split; [reflexivity|]. split; [exact U1|]. split; [exact U2|]. split; [exact U3|].
+    split; [|rewrite HridS; split; reflexivity].
+    rewrite U4, Hreuse. destruct oobs; reflexivity.
+  - rewrite Mciv, Malg, Mid. unfold piv_of_seq. rewrite construct_nonce_short by exact Hfull. rewrite Hn. cbn [bind].
+    rewrite Mk, Haad, Hpay, Hde. cbn [bind]. fold (piv_of_seq (sender_sequence_number cS)). rewrite Hfin. cbn [bind].
+    replace (set_window cC (recipient_replay_window cC)) with cC by (destruct cC; reflexivity).
+    split; [reflexivity|]. split; [exact U1|]. split; [exact U2|]. split; [exact U3|].
+    split; [|rewrite HridS; split; reflexivity].
+    rewrite U4, Hreuse. destruct oobs; reflexivity.
+Qed.
+
+(* a response with an own Partial IV (notification, or any response after the request's nonce was used): protect draws a fresh
+   sequence number, the OSCORE option carries it in shortest form, the nonce is built from that Partial IV and the responder's id,
+   the AAD carries the REQUEST's kid and Partial IV; the requester gets code, options and payload back, and Observe = the
+   notification's sequence number when the outer Observe is present *)
+Theorem notification_roundtrip E cS cC m rS rC kc cS' r' pm ridS oobs : ideal E ->
+  recipient_key cC = sender_key cS -> recipient_id cC = sender_id cS -> common_iv cC = common_iv cS -> c_alg cC = c_alg cS ->
+  is_response (code m) = true -> can_reuse_nonce rS = false -> rid_kid rC = rid_kid rS -> rid_piv rC = rid_piv rS ->
+  (snd (code_style rS) = CODE_CHANGED \/ snd (code_style rS) = CODE_CONTENT) ->
+  protect E cS m (Some rS) kc = (cS', r', Ok (pm, ridS)) ->
+  alg_tag_bytes (c_alg cC) + 1 <= blen (payload pm) ->
+  let seq := sender_sequence_number cS in
+  (exists um,
+    unprotect E cC {| code := code pm; opts := set_opt OPT_OBSERVE oobs (opts pm); payload := payload pm |} (Some rC) = (cC, Ok (um, rC)) /\
+    u_code um = code m /\ u_opts um = del_opt OPT_OBSERVE (opts m) /\ u_payload um = payload m /\
+    u_observe um = match oobs with None => observe_value (opts m) | Some _ => Some (from_bytes_big (piv_of_seq seq)) end) /\
+  seq < MAX_SEQNO /\ sender_sequence_number cS' = seq + 1 /\
+  (exists od, opts pm = [(OPT_OSCORE, od)] /\
+     uncompress od = Ok {| u_piv := Some (piv_of_seq seq); u_kid := if responses_send_kid cS then Some (sender_id cS) else None;
+                           u_kid_context := None; u_group := false |}) /\
+  (exists nonce pt,
+     construct_nonce (common_iv cS) (to_bytes_big_n (Z.to_nat PIV_FULL_BYTES) seq) (sender_id cS) (alg_iv_bytes (c_alg cS)) = Ok nonce /\
+     payload pm = enc E (sender_key cS) nonce
+       (build_encrypt0_structure (extract_external_aad (c_alg cS)
+          {| rid_kid := rid_kid rS; rid_piv := rid_piv rS; can_reuse_nonce := false; code_style := code_style rS |})) pt).
+Proof.
+  intros HI Mk Mid Mciv Malg Hresp Hreuse Rk Rp Hstyle P Hlen seq. subst seq.
+  destruct (response_roundtrip_any E cS cC m rS rC kc cS' r' pm ridS oobs HI Mk Mid Mciv Malg Hresp Rk Rp Hstyle P Hlen)
+    as (um & H1 & H2 & H3 & H4 & H5 & _).
+  rewrite Hreuse in H5.
+  apply (protect_response_inv _ _ _ _ _ _ _ _ _ Hresp) in P as (pivs & gen & nonce & upiv & pt & od & HridS & _ & Hcase & Hn & Hpt & Hc & Hcode & Hopts & Hpay).
+  destruct Hcase as [(Hx & _)|(_ & -> & -> & -> & -> & Hmax)]; [congruence|].
+  split; [exists um; repeat split; assumption|].
+  split; [exact Hmax|]. split; [reflexivity|].
+  split.
+  { exists od. split; [exact Hopts|]. apply compress_uncompress; [|exact Hc]. split; cbn [u_piv u_kid_context]; [|exact I].
+    assert (Hfull : blen (to_bytes_big_n (Z.to_nat PIV_FULL_BYTES) (sender_sequence_number cS)) = NONCE_PIV_BYTES) by (rewrite blen_tbn; reflexivity).
+    pose proof (shorten_piv_len _ Hfull). unfold piv_of_seq, PIVSZ_MAX, NONCE_PIV_BYTES in *. lia. }
+  exists nonce, pt. split; [exact Hn|]. rewrite <- HridS. exact Hpay.
+Qed.
+
+(* a protected response — first or with its own Partial IV — that is accepted under the request identifiers (k1, p1) was produced
+   for (k1, p1): it cannot be replayed against another request *)
+Theorem response_not_replayable_against_other_request E cS m rS kc cS' rS' pmS ridS cR pm rR cR' pt seqno ridR : ideal E ->
+  small_alg (c_alg cS) -> small_alg (c_alg cR) -> small_rid rS -> small_rid rR ->
+  is_response (code m) = true ->
+  protect E cS m (Some rS) kc = (cS', rS', Ok (pmS, ridS)) ->
+  unprotect_verify E cR pm (Some rR) = Ok (cR', pt, seqno, ridR) ->
+  payload pm = payload pmS ->
+  rid_kid rR = rid_kid rS /\ rid_piv rR = rid_piv rS.
+Proof.
+  intros HI As Ar Ss Sr Hresp P U Hp.
+  pose proof P as P0. apply (protect_response_inv _ _ _ _ _ _ _ _ _ Hresp) in P0 as (_ & _ & _ & _ & _ & _ & HridS & _).
+  pose proof U as U0. apply unprotect_verify_inv in U0 as (od & u & pivs & gen & nonce & _ & _ & _ & _ & _ & Hm & _).
+  assert (HridR : ridR = rR) by (destruct (u_piv u); destruct Hm as (_ & _ & Hm & _); exact Hm).
+  assert (Ss' : small_rid ridS) by (rewrite HridS; exact Ss).
+  assert (Sr' : small_rid ridR) by (rewrite HridR; exact Sr).
+  destruct (accepted_implies_unchanged E cS m (Some rS) kc cS' rS' pmS ridS cR pm (Some rR) cR' pt seqno ridR HI As Ar Ss' Sr' P U Hp) as (_ & _ & Hk & Hpv & _).
+  rewrite HridR, HridS in Hk, Hpv. cbn [rid_kid rid_piv] in Hk, Hpv. split; assumption.
+Qed.
+
+(* What acceptance of a sender's request ciphertext says about the OSCORE option of the accepted message — with the limits made
+   explicit: the Partial IV field is the sender's byte for byte (it is in the AAD); KID and ID context are bound only through their
+   EFFECTIVE values (the field, or the recipient's own id / id context when the field is absent), because the OSCORE option itself is
+   not part of the AAD (RFC 8613 5.4).  Removing those fields, or bytes after the last field, is therefore not detected: see the
+   _refuted witnesses in Props/C11.v and the open known findings C11:accepted-option-change:*. *)
+Theorem request_option_change_detected E cS m kc cS' rS' pmS ridS cR pm cR' pt seqno ridR od' u' : ideal E ->
+  small_alg (c_alg cS) -> small_alg (c_alg cR) -> small_rid ridS -> small_rid ridR ->
+  is_request (code m) = true ->
+  protect E cS m None kc = (cS', rS', Ok (pmS, ridS)) ->
+  unprotect_verify E cR pm None = Ok (cR', pt, seqno, ridR) ->
+  payload pm = payload pmS ->
+  get_opt OPT_OSCORE (opts pm) = Some od' -> uncompress od' = Ok u' ->
+  u_piv u' = Some (rid_piv ridS) /\ eff_kid cR u' = sender_id cS /\ eff_kid_context cR u' = id_context cR /\ u_group u' = false.
+Proof.
+  intros HI As Ar Ss Sr Hreq P U Hp Hod Hu.
+  destruct (accepted_implies_unchanged E cS m None kc cS' rS' pmS ridS cR pm None cR' pt seqno ridR HI As Ar Ss Sr P U Hp) as (_ & _ & Hk & Hpv & _).
+  apply (protect_request_inv _ _ _ _ _ _ _ _ Hreq) in P as (full & nonce & pt0 & od & _ & _ & _ & _ & Rk & _).
+  apply unprotect_verify_inv in U as (od0 & u & pivs & gen & nn & Hod0 & Hu0 & Hctx & Hkid & Hg & Hm & _).
+  rewrite Hod in Hod0. injection Hod0 as <-. rewrite Hu in Hu0. injection Hu0 as <-.
+  destruct (u_piv u') as [p|]; [|contradiction].
+  destruct Hm as (_ & _ & Hrk & Hrp & _).
+  split; [congruence|]. split; [congruence|]. split; assumption.
+Qed.
